@@ -65,7 +65,7 @@ def clause(item):
     return Cl(item[0], item[1])
 
 
-DROPPED_CALL_PREFIXES = ("print", "logging.", "plt.", "self.log_util.", "log_util.", "warnings.")
+DROPPED_CALL_PREFIXES = ("print", "logging.", "plt.", "self.log_util.log_", "self.log_util.print_", "log_util.log_", "log_util.print_", "warnings.")
 
 
 class Sym:
